@@ -106,6 +106,7 @@ func runC15(c *Ctx) {
 		nd = 30000
 	}
 	corp := corpusDocs()
+	var hoptItems []docItem
 	for _, cf := range cfgs {
 		used := cf.Build() // long-lived instance: history must not matter
 		for i := 0; i < nd; i++ {
@@ -128,6 +129,7 @@ func runC15(c *Ctx) {
 			if cf.Ext == "core" && len(src) <= 600 {
 				// the model of Convert with parser.WithAutoHeadingID() (model/HeadingIds.v)
 				convertAutoIDCase(c, cf, src)
+				hoptItems = append(hoptItems, docItem{"heading-documents", src})
 			}
 			ids, missing, _ := headingIDs(out)
 			in := map[string]string{"config": cf.Name(), "source": q(src)}
@@ -156,5 +158,17 @@ func runC15(c *Ctx) {
 				c.Sample(map[string]string{"config": cf.Name(), "source": q(src), "ids": strings.Join(ids, ",")})
 			}
 		}
+	}
+	// the model of the heading options WithAttribute / WithAutoHeadingID inside the block driver
+	// (model/HeadingOpts.v), on these documents and on headings with attribute blocks
+	for _, it := range collectDocs(c, docOpts{random: 2000}, nil) {
+		if it.stream == "attribute-soup" || it.stream == "attribute-bytes" {
+			hoptItems = append(hoptItems, it)
+		}
+	}
+	if c.Quick() {
+		headingOptModelCases(c, hoptItems, 6000)
+	} else {
+		headingOptModelCases(c, hoptItems, 80000)
 	}
 }
